@@ -27,6 +27,12 @@ func verifNameSet(set int) ([]string, []FieldID) {
 			ids = append(ids, FieldID(i+1))
 		}
 		return names, ids
+	case 3: // the response wrapper of a function without exceptions: one field with the empty name
+		return []string{""}, []FieldID{0}
+	case 4: // ... and with one exception
+		return []string{"", "err"}, []FieldID{0, 1}
+	case 5: // ids at the top of the 16-bit range
+		return []string{"lo", "mid", "hi"}, []FieldID{32767, 32768, 65535}
 	default: // single field
 		return []string{"only"}, []FieldID{0}
 	}
